@@ -112,7 +112,7 @@ func pointsFor(kind kit.Kind, target string) (boundaries, offsets []string) {
 func enumerate(kind kit.Kind, fault string, rng *rand.Rand, nOffsets int, thorough bool) []hcase {
 	var out []hcase
 	sizes := []string{"small", "large"}
-	pend := []int{1, 2, 8}
+	pend := pendings
 	for _, target := range []string{"call", "init", "getstream"} {
 		if target == "getstream" && kind == kit.LSSE {
 			continue
@@ -140,7 +140,7 @@ func enumerate(kind kit.Kind, fault string, rng *rand.Rand, nOffsets int, thorou
 					fr = append(fr, 0.02+0.96*rng.Float64())
 				}
 				for k, f := range fr {
-					n := []int{1, 2, 8}[(i+k)%3]
+					n := pendings[(i+k)%len(pendings)]
 					if target == "init" {
 						n = 1
 					}
